@@ -673,6 +673,16 @@ class IntegrityChecker(object):
                     category="metadata wrong",
                     cfg_section=sec,
                     cfg_key=key))
+        # the event count may be zero, but not negative
+        evcount = self.ds.config.get("experiment", {}).get("event count")
+        if evcount is not None and evcount < 0:
+            cues.append(ICue(
+                msg="Metadata: Invalid value for [experiment] "
+                    + f"'event count': '{evcount}'!",
+                level="violation",
+                category="metadata wrong",
+                cfg_section="experiment",
+                cfg_key="event count"))
         return cues
 
     def check_metadata_choices(self, **kwargs):
